@@ -249,6 +249,30 @@ func isErrorType(t types.Type) bool {
 
 // rangeOver lists range statements under n whose operand selects
 // owner.field.
+// loopsOverField counts the loops that traverse owner.field: a range statement
+// over it, or a three-clause loop whose condition reads len(owner.field).
+func loopsOverField(info *types.Info, n ast.Node, owner, field string) int {
+	c := len(rangesOverField(info, n, owner, field))
+	ast.Inspect(n, func(x ast.Node) bool {
+		fs, ok := x.(*ast.ForStmt)
+		if !ok || fs.Cond == nil {
+			return true
+		}
+		hit := false
+		ast.Inspect(fs.Cond, func(y ast.Node) bool {
+			if ce, ok := y.(*ast.CallExpr); ok && calleeBuiltin(info, ce) == "len" && len(ce.Args) == 1 && isField(info, ce.Args[0], owner, field) {
+				hit = true
+			}
+			return true
+		})
+		if hit {
+			c++
+		}
+		return true
+	})
+	return c
+}
+
 func rangesOverField(info *types.Info, n ast.Node, owner, field string) []*ast.RangeStmt {
 	var out []*ast.RangeStmt
 	ast.Inspect(n, func(x ast.Node) bool {
@@ -286,4 +310,78 @@ func (p *Prog) funcsInPkg(pkgRel string) []*FuncInfo {
 		}
 	}
 	return out
+}
+
+// singleDefOf returns the only value ever assigned to local variable o in body
+// (a := / = / var statement with matching positions), or nil when o has
+// several definitions, is a parameter, or is updated by ++/op=/range/&.
+func singleDefOf(info *types.Info, body ast.Node, o types.Object) ast.Expr {
+	if o == nil {
+		return nil
+	}
+	var def ast.Expr
+	n := 0
+	ast.Inspect(body, func(x ast.Node) bool {
+		switch y := x.(type) {
+		case *ast.AssignStmt:
+			for i, l := range y.Lhs {
+				if id, ok := l.(*ast.Ident); ok && info.ObjectOf(id) == o {
+					n++
+					if len(y.Lhs) == len(y.Rhs) && (y.Tok == token.DEFINE || y.Tok == token.ASSIGN) {
+						def = y.Rhs[i]
+					} else {
+						n += 10
+					}
+				}
+			}
+		case *ast.ValueSpec:
+			for i, nm := range y.Names {
+				if info.Defs[nm] == o {
+					if i < len(y.Values) {
+						n++
+						def = y.Values[i]
+					}
+				}
+			}
+		case *ast.IncDecStmt:
+			if id, ok := ast.Unparen(y.X).(*ast.Ident); ok && info.ObjectOf(id) == o {
+				n += 10
+			}
+		case *ast.RangeStmt:
+			for _, l := range []ast.Expr{y.Key, y.Value} {
+				if id, ok := l.(*ast.Ident); ok && info.ObjectOf(id) == o {
+					n += 10
+				}
+			}
+		case *ast.UnaryExpr:
+			if id, ok := ast.Unparen(y.X).(*ast.Ident); ok && y.Op == token.AND && info.ObjectOf(id) == o {
+				n += 10
+			}
+		}
+		return true
+	})
+	if n != 1 {
+		return nil
+	}
+	return def
+}
+
+// resolveCopies follows single-definition locals: `a := x.F; use(a)` is a use of x.F.
+func resolveCopies(info *types.Info, body ast.Node, e ast.Expr) ast.Expr {
+	for hop := 0; hop < 4; hop++ {
+		id, ok := ast.Unparen(e).(*ast.Ident)
+		if !ok {
+			return e
+		}
+		v, ok := info.ObjectOf(id).(*types.Var)
+		if !ok || v.IsField() {
+			return e
+		}
+		d := singleDefOf(info, body, v)
+		if d == nil {
+			return e
+		}
+		e = d
+	}
+	return e
 }
